@@ -194,9 +194,10 @@ func runC20(seed int64, count int) {
 		}
 		nops := 3 + rng.Intn(14)
 		for i := 0; i < nops; i++ {
-			clk.now += time.Duration(rng.Intn(idle+5)) * tick
-			if rng.Intn(4) == 0 {
-				clk.now -= clk.now % tick // (already aligned) keep bursts: no advance at all
+			if rng.Intn(3) == 0 {
+				clk.now += time.Duration(rng.Intn(2)) * tick // a burst: this operation follows the previous one at once or one tick later
+			} else {
+				clk.now += time.Duration(rng.Intn(idle+5)) * tick
 			}
 			switch r := rng.Intn(12); {
 			case r < 2 && !active:
